@@ -35,6 +35,13 @@ CONDS = [
          'hours 0..29, minutes 0..69 (so that invalid fields are reachable)', timeout={'quick': 100, 'thorough': 900}),
     Cond('date_range_ok', ':in-range / :out-of-range for date, month, week inputs == calendar order of the tuples',
          'years 1000..9999, months 1..12, day/week 1..28', timeout={'quick': 100, 'thorough': 900}),
+    Cond('datetime_range_ok', 'datetime-local: symbolic bound (as min or as max) and value compare field by field in calendar '
+         'order', 'years 1000..9999, months 1..12, days 1..28, hours 0..23, minutes 0..59', timeout={'quick': 100, 'thorough': 900}),
+    Cond('week_order_ok', 'week inputs: a genuine week 53 against a symbolic week of a symbolic year, as bound or as value, compare as (year, week)',
+         'week-53 years 1200..9999 (71 residues mod 400 by index x symbolic cycle), other year 1000..9999, week 1..52', timeout={'quick': 100, 'thorough': 900}),
+    Cond('week_parse_order_ok', 'the real parse_value is strictly monotone from (year, week) to its result: a genuine week 53 against six '
+         'symbolic digits', 'week-53 years 1200..9999 by index, other year 1000..9999, week 01..52', timeout={'quick': 90, 'thorough': 900},
+         parts={'quick': 2, 'thorough': 8}),
     Cond('number_range_ok', ':in-range / :out-of-range for number/range inputs == numeric order; validity == HTML '
          'valid floating-point number (incl. exponent, leading dot; not "1.", "+1", " 1")',
          'min, max, value from pools of 28 / 18 / 18 spellings (enumerated by symbolic index)',
